@@ -47,6 +47,7 @@ func main() {
 	statsPath := flag.String("stats", "", "stats output (json)")
 	tier := flag.String("tier", "quick", "tier")
 	replay := flag.String("replay", "", "replay file (component specific)")
+	mode := flag.String("mode", "", "generator mode (component specific)")
 	flag.Parse()
 	f, ok := components[*comp]
 	if !ok {
@@ -69,6 +70,7 @@ func main() {
 	}
 	ctx := &Ctx{rng: rand.New(rand.NewSource(*seed)), out: bufio.NewWriterSize(w, 1<<20), stats: map[string]int{}, n: *n, tier: *tier}
 	replayFile = *replay
+	genMode = *mode
 	silenceLogs()
 	f(ctx)
 	ctx.out.Flush()
@@ -80,3 +82,4 @@ func main() {
 }
 
 var replayFile string
+var genMode string
